@@ -383,9 +383,8 @@ fn generate_root_definitions(
         let mut current_namespace = namespace;
         while let Some(namespace_id) = current_namespace {
             let name = context
-                .module
-                .namespace_registry
-                .get_namespace_name(namespace_id);
+                .name_map
+                .get_name_leaf(NameSymbol::Namespace(namespace_id));
 
             defs = Vec::from([ast::RootDefinition::Namespace(
                 Located::none(name.to_string()),
